@@ -131,7 +131,39 @@ def guards_of(body, target_bb, unwind=False, max_paths=4096):
     """Conditions (text, taken value) that hold on *every* acyclic path from entry to target_bb,
     and the list of those paths."""
     ev = PathEval(body, unwind=unwind, max_paths=max_paths)
-    paths = [p for p in ev.run() if target_bb in p.blocks]
+    allp = ev.run()
+    paths = [p for p in allp if target_bb in p.blocks]
+    if ev.truncated:
+        # the path budget ran out (functions with many independent option tests): intersecting the conditions of the paths
+        # that happened to be explored would invent guards. Decide each candidate on the control-flow graph instead: the
+        # edge (switch block -> successor) guards the target iff the target is unreachable from the entry without it.
+        edges = {}
+        for p in allp:
+            ci = 0
+            for k, bb in enumerate(p.blocks[:-1]):
+                if body.blocks[bb]["term"]["k"] == "switch":
+                    if ci < len(p.conds):
+                        c = p.conds[ci]
+                        edges.setdefault((bb, p.blocks[k + 1]), (show(c[0]), c[1]))
+                        ci += 1
+        out = set()
+        for (sb, nxt), cond in edges.items():
+            succs = body.succ(sb, unwind)
+            if succs.count(nxt) != 1:
+                continue
+            # reachability of the target with this one edge removed
+            seen, st = set(), [0]
+            while st:
+                b = st.pop()
+                if b in seen:
+                    continue
+                seen.add(b)
+                for n in body.succ(b, unwind):
+                    if not (b == sb and n == nxt):
+                        st.append(n)
+            if target_bb not in seen:
+                out.add(cond)
+        return out, paths
     common = None
     for p in paths:
         idx = p.blocks.index(target_bb)
@@ -556,3 +588,37 @@ def result_test(cond):
             return base, False
         return base, None
     return None, None
+
+
+def flag_guards(body, target_bb, prefix="display_"):
+    """Purely graph-based: the boolean fields of self named `<prefix>*` that control whether target_bb is reached, with the
+    value they must have. A switch block whose operand is (a copy of) such a field guards the target with value v iff the
+    target becomes unreachable from the entry once that block's v-edge is removed... no path enumeration, so it stays
+    exact in functions with dozens of independent option tests."""
+    out = set()
+    for sb, blk in enumerate(body.blocks):
+        t = blk["term"]
+        if t["k"] != "switch" or not t.get("on"):
+            continue
+        o = body.origin(t["on"])
+        if o[0] != "arg" or not o[2]:
+            continue
+        names = [p.get("n") for p in o[2] if isinstance(p, dict) and p.get("n")]
+        if not names or not str(names[-1]).startswith(prefix):
+            continue
+        flag = str(names[-1])
+        edges = [(a[0], a[1]) for a in t["arms"]] + [(None, t["otherwise"])]
+        for val, nxt in edges:
+            seen, st = set(), [0]
+            while st:
+                b = st.pop()
+                if b in seen:
+                    continue
+                seen.add(b)
+                for n in body.succ(b):
+                    if not (b == sb and n == nxt):
+                        st.append(n)
+            if target_bb not in seen:
+                # bool switch: arm value 0 = false; `otherwise` = true
+                out.add((flag, False if val == 0 else True))
+    return out
